@@ -503,8 +503,12 @@ def vtk_pool(rng, where, nbase):
         if r < 0.4:
             f = rng.choice(fields)
             d2 = dict(d)
-            d2[f] = d[f] + rng.choice((-1e-14, 1e-14))
-            pool.add(fresh(d2), v, "%s+-1e-14" % f, "key[%d] with %s shifted by 1e-14" % (n, f))
+            s = rng.choice((-1e-14, 1e-14))
+            d2[f] = d[f] + s
+            # these are cache keys: an input that is merely close may be the same key or a different one (C36 demands
+            # only the laws).  So the near-equal variant is its own value (nothing forces it to equal the base) with
+            # the base's coarse value (nothing forces it to differ either); it still takes part in every law.
+            pool.add(fresh(d2), v + ("near", f, s), "%s+-1e-14" % f, "key[%d] with %s shifted by 1e-14" % (n, f), far=v)
         elif r < 0.7:
             f = rng.choice(fields)
             d2 = dict(d)
